@@ -326,6 +326,39 @@ def quote_family():
     return out
 
 
+# ---- unterminated / malformed tag openings followed by MANY attributes: the tag patterns of uniq.Uniquifier.replace_tags, tagparser and
+# the scanner run over such text; a pattern whose attribute part is ambiguous backtracks exponentially in the number of attributes
+UNTERMINATED_TAGS = ["ref", "gallery", "math", "nowiki", "source", "pre", "timeline", "imagemap", "poem", "pages", "span", "div", "table",
+                     "td", "br", "references", "syntaxhighlight", "noinclude", "includeonly", "xyz"]
+
+
+def unterminated_tag_family(tier):
+    """deterministic: `<tag` + k attributes in one of 7 spellings + one of 6 terminators, k = 4..60"""
+    spellings = [
+        lambda i: ' a%d="v%d"' % (i, i),            # double-quoted
+        lambda i: " a%d='v%d'" % (i, i),            # single-quoted
+        lambda i: " a%d=v%d" % (i, i),              # unquoted
+        lambda i: ' "v%d"' % i,                     # bare quoted strings
+        lambda i: " '" if i % 2 else ' "',          # lone quote characters
+        lambda i: ' a%d="v %d\'s"' % (i, i),        # the other quote inside
+        lambda i: " a%d" % i,                       # names only
+    ]
+    terms = ["", "\n\n<b>x</b>", "<", ">", "/>", "> tail without closing tag\n== h ==\n"]
+    ks = (4, 12, 16, 20, 30, 60) if tier == "quick" else (4, 8, 12, 16, 20, 24, 30, 40, 60)
+    out = []
+    n = 0
+    for tag in UNTERMINATED_TAGS:
+        for si, sp in enumerate(spellings):
+            for k in ks:
+                # quick: rotate the terminators; thorough: all of them
+                for ti, term in enumerate(terms):
+                    n += 1
+                    if tier == "quick" and (n + si + ti) % 3:
+                        continue
+                    out.append("Some text.<%s%s%s" % (tag, "".join(sp(i) for i in range(k)), term))
+    return out
+
+
 def quote_case(rng, maxlen):
     k = rng.choice([10, 14, 18, 24, 32, 40, 60])
     prof = rng.choice([[5], [5], [2, 3], [2, 3, 5], [2, 3, 4, 5, 6], [5, 6], [4, 5], [3, 5], [2, 5], [5, 5, 5, 3], [6, 7, 9]])
